@@ -128,6 +128,78 @@ fn plan_for(property: &str, tier: &str, seed: u64, workers: usize) -> Result<Pla
     }
 }
 
+/// Rare conditions every run of the check is expected to reach; one that
+/// stays at zero means the workload or fault mix has regressed.
+pub fn expected_probes(property: &str) -> Vec<&'static str> {
+    match property {
+        "C11" => vec![
+            "probe.completed_by_non_last_fragment",
+            "probe.completed_by_overlapping_fragment",
+            "probe.duplicate_before_completion",
+            "probe.partial_overlap",
+            "probe.fragment_after_completion_opens_new_stream",
+            "probe.fragment_after_eviction_opens_new_stream",
+            "probe.id_reuse_after_completion",
+            "probe.id_reuse_after_eviction",
+            "probe.id_reuse_while_stream_in_flight",
+            "probe.recycled_buffer_larger_than_datagram",
+            "probe.stream_grew_beyond_initial_capacity",
+            "probe.conflicting_end_beyond_known_end",
+            "probe.conflicting_end_last_before_received_data",
+            "probe.conflicting_end_second_last_with_smaller_end",
+            "probe.error_segment_too_big",
+            "probe.error_unaligned",
+            "probe.error_on_first_fragment_unaligned",
+            "probe.error_on_first_fragment_segment_too_big",
+            "probe.rollback_changed_stream_set",
+            "probe.bulk_evict_multi_victim",
+            "probe.active_streams_differ_only_in_channel",
+            "probe.active_streams_differ_only_in_vlan_ids",
+            "probe.active_streams_differ_only_in_protocol",
+            "probe.active_streams_differ_only_in_identification",
+            "probe.passthrough_non_fragment",
+            "probe.streams_interleaved",
+            "probe.buf_rejected_fragments",
+            "probe.buf_recycled_with_stale_capacity",
+            "probe.buf_three_or_more_sections",
+            "fault_fired.allocation_failure",
+            "fault_fired.eviction",
+            "fault_fired.restart",
+            "fault_fired.rollback",
+            "fault_fired.drop",
+            "fault_fired.bit_flip",
+            "fault_fired.truncate",
+        ],
+        "C16" => vec![
+            "fault_fired.io_error",
+            "fault_fired.zero_transfer",
+            "fault_fired.eintr",
+            "c16.short_slice",
+            "c16.limited.len_errors",
+            "c16.fault_in_part1.tcp",
+            "c16.fault_in_part1.ipv4",
+            "c16.fault_in_part1.ip_auth",
+            "c16.fault_in_part1.ipv6_raw_ext",
+            "c16.fault_in_part2.ipv6_exts",
+            "c16.fault_in_part2.ip_headers",
+            "c16.build_fault_in_part5",
+            "c16.fault_in_call4.arp.read",
+            "c16.fault_in_call2.ipv4.read",
+            "c16.fault_in_call2.ipv6.skip_header_extension",
+            "c16.fault_in_call3.ip_headers.read",
+        ],
+        "C06" => vec![
+            "c06.outcome.both-accept",
+            "c06.outcome.both-content",
+            "c06.outcome.both-len",
+            "c06.outcome.both-reject-truncated",
+            "c06.outcome.both-reject-order",
+        ],
+        "C01" => vec!["fault_fired.reader_fault", "fault_fired.medium_damage"],
+        _ => vec![],
+    }
+}
+
 fn prefixed(stats: &Stats, prefix: &str) -> J {
     let mut o = J::obj();
     for (k, v) in &stats.counters {
@@ -336,9 +408,9 @@ pub fn run_main(property: &str, tier: &str) -> i32 {
     }
 
     // coverage warnings never change the exit status
-    for (k, v) in &stats.counters {
-        if k.starts_with("probe.") && *v == 0 {
-            println!("WARNING probe={} never fired", &k[6..]);
+    for name in expected_probes(property) {
+        if stats.get(name) == 0 {
+            println!("WARNING probe={} never fired", name.trim_start_matches("probe."));
         }
     }
     if total_runs < requested_runs {
@@ -395,7 +467,9 @@ pub fn selftest_main(runs: Option<u64>) -> i32 {
         ("C06", vec!["compare"]),
         ("C01", vec!["native"]),
     ] {
-        for config in configs {
+        let mut union: std::collections::BTreeMap<String, u64> = Default::default();
+        let nconf = configs.len();
+        for (ci, config) in configs.into_iter().enumerate() {
             let n = if property == "C16" { n / 4 } else { n };
             let mut results = Vec::new();
             let bad_before = bad;
@@ -433,20 +507,27 @@ pub fn selftest_main(runs: Option<u64>) -> i32 {
                     bad += 1;
                 }
             }
-            let zero: Vec<&String> = results[0]
-                .1
-                .stats
-                .counters
-                .iter()
-                .filter(|(k, v)| k.starts_with("probe.") && **v == 0)
-                .map(|(k, _)| k)
-                .collect();
+            // probes are expected over the union of a property's configurations
+            let zero: Vec<&str> = Vec::new();
+            for (k, v) in &results[0].1.stats.counters {
+                *union.entry(k.clone()).or_insert(0u64) += *v;
+            }
             println!(
                 "selftest {property}/{config}: {} runs x 3 executions (1, 16, 7 workers), digests {}, zero probes: {:?}",
                 base.len(),
                 if bad == bad_before { "identical" } else { "DIFFER" },
                 zero
             );
+            if ci + 1 == nconf {
+                let missing: Vec<&str> = expected_probes(property)
+                    .into_iter()
+                    .filter(|p| union.get(*p).copied().unwrap_or(0) == 0)
+                    .collect();
+                if !missing.is_empty() {
+                    println!("selftest {property}: probes that never fired: {missing:?}");
+                    bad += 1;
+                }
+            }
         }
     }
     if bad == 0 {
